@@ -936,6 +936,13 @@ def n_setattr(eng, args, kwargs, st):
     raise Unsupported("setattr on %r" % (o,))
 
 
+def n_setitem(eng, args, kwargs, st):
+    """operator.setitem(container, key, value)"""
+    c, i, v = args
+    outs = eng.setitem(c, i, v, st)
+    return [(Raise(val), s) if kind == "raise" else (None, s) for kind, val, s in outs]
+
+
 class _ItemGetter:
     def __init__(self, key):
         self.key = key
@@ -1143,7 +1150,7 @@ def n_identity(eng, args, kwargs, st):
 
 
 NATIVE = {
-    ast.parse: n_ast_parse, ast.fix_missing_locations: n_fix_missing_locations, reversed: n_reversed, itertools.filterfalse: n_filterfalse, copy.deepcopy: n_deepcopy, ast.walk: n_ast_walk, ast.iter_child_nodes: n_iter_child_nodes,
+    ast.parse: n_ast_parse, ast.fix_missing_locations: n_fix_missing_locations, operator.setitem: n_setitem, reversed: n_reversed, itertools.filterfalse: n_filterfalse, copy.deepcopy: n_deepcopy, ast.walk: n_ast_walk, ast.iter_child_nodes: n_iter_child_nodes,
     len: n_len, isinstance: n_isinstance, type: n_type, int: n_int, float: n_float, bool: n_bool, str: n_str,
     complex: n_complex, sum: n_sum, any: n_any, all: n_all, map: n_map, filter: n_filter,
     enumerate: n_enumerate, range: n_range, next: n_next, iter: n_iter, tuple: n_tuple, list: n_list,
